@@ -255,6 +255,10 @@ pub enum Step {
     /// everybody in sync, advance the server tick by about 2^30, touch every replicated entity so that every live tick is
     /// refreshed (ticks 2^31 or more apart are never compared), everybody in sync again
     BigJump { fine: u8 },
+    /// (once per case, start tick >= 2^16) hop in BigJump fashion - everybody in sync, at most 2^30 ticks, every live tick
+    /// refreshed - until the server tick is `before` (3..15) ticks below u32::MAX: the steps that follow cross the wrap of
+    /// the tick counter with ordinary traffic in flight
+    ToWrap { before: u8 },
     ClientFrame { client: usize },
     DeliverUpd { client: usize, n: usize },
     DeliverMut { client: usize, idx: u16 },
